@@ -365,8 +365,35 @@ def r15_6(ctx):
         # styles equal
         ctx.check(any("style ==" in c or "== " in c and ".style" in c for c in conj), f.fq, "style equality guard", f"{f.module.relpath}:{nd.lineno}", "merge only when styles are equal", "segments with different styles are merged")
     fc = ctx.repo.fn("segment:Segment.filter_control")
-    src = norm(fc.node)
-    ctx.check("attrgetter('is_control')" in src and "filterfalse" in src and "filter(" in src, fc.fq, "filter_control", fc.where, "filter_control keeps/drops by the is_control field", "filter_control no longer filters on the is_control field")
+    from ..yieldpaths import Unsupported, canon_test as _ct, paths_of, resolve
+    seg_p, flag_p = fc.params[1], fc.params[2]
+
+    def keeps(txt):
+        """True / False: the returned iterable keeps exactly the segments whose is_control is that value; None: unknown"""
+        try:
+            v = ast.parse(txt, mode="eval").body
+        except SyntaxError:
+            return None
+        if isinstance(v, ast.Call) and norm(v.func) in ("filter", "filterfalse", "itertools.filterfalse") and len(v.args) == 2 and norm(v.args[1]) == seg_p and norm(v.args[0]) in ("attrgetter('is_control')", "operator.attrgetter('is_control')"):
+            return norm(v.func) == "filter"
+        if isinstance(v, ast.Call) and norm(v.func) in ("list", "iter", "tuple") and len(v.args) == 1:
+            v = v.args[0]
+        if isinstance(v, (ast.GeneratorExp, ast.ListComp)) and len(v.generators) == 1 and norm(v.generators[0].iter) == seg_p and isinstance(v.generators[0].target, ast.Name) and norm(v.elt) == norm(v.generators[0].target) and len(v.generators[0].ifs) == 1:
+            facts = _ct(v.generators[0].ifs[0], True)
+            if len(facts) == 1 and facts[0][0] == f"{v.generators[0].target.id}.is_control":
+                return facts[0][1]
+        return None
+    try:
+        FP = [resolve(p_) for p_ in paths_of(fc.node)]
+    except Unsupported as u:
+        raise AnalysisError(f"Segment.filter_control: statement outside the path normal form ({u})")
+    okf = bool(FP)
+    for p_ in FP:
+        facts = {e[1]: e[2] for e in p_ if e[0] == "cond"}
+        rets = [e for e in p_ if e[0] == "return" and e[1] is not None]
+        if len(rets) != 1 or facts.get(flag_p) is None or keeps(rets[0][1]) is not facts[flag_p]:
+            okf = False
+    ctx.check(okf, fc.fq, "filter_control", fc.where, "filter_control keeps/drops by the is_control field", "filter_control no longer filters on the is_control field")
 
 
 RULES = [r15_1, r15_2, r15_3, r15_4, r15_5, r15_6]
